@@ -210,8 +210,8 @@ func (ctx *Context) DeletePendingRegisters(readRegisters, writeRegisters []Regis
 func (ctx *Context) DeletePendingWriteRegisters(registers []RegisterType) {
 	for _, register := range registers {
 		ctx.PendingWriteRegisters[register]--
-		if ctx.Registers[register] <= 0 {
-			delete(ctx.Registers, register)
+		if ctx.PendingWriteRegisters[register] <= 0 {
+			delete(ctx.PendingWriteRegisters, register)
 		}
 	}
 }
